@@ -3,15 +3,31 @@ Total correctness of the link commit (`lcommit`, the model of `link_to`'s `commi
 semantics `Prog.run`, for linkers without declared size / integrity (`l.opts.size = none`,
 `l.opts.sri = none`), by address (`l.key = none`) and keyed (`l.key = some k`).
 
-The three cases of what lives at the content address of the target's bytes:
-* `relink_replaces_old_link` (+ `_keyed`) — an earlier link, WHATEVER it points at (stale, dangling
-  or good): the commit succeeds and the address is re-pointed at `l.target` through the temp link
-  `cache/tmp/#<next>` + `rename`; `relink_tmp_clean`: nothing is left in `cache/tmp`;
+The cases of what lives at the content address of the target's bytes:
+* `relink_replaces_old_link` (+ `_keyed`) — an earlier link that does NOT already lead to the
+  target's file (`NotSameFile`: stale, dangling, pointing elsewhere; checkable forms
+  `notSameFile_of_dangling` — a dangling occupant, whatever the new target — and
+  `notSameFile_of_ne`): the commit succeeds and the address is re-pointed at `l.target` through the
+  temp link `cache/tmp/#<next>` + `rename`; `relink_tmp_clean`: nothing is left in `cache/tmp`;
   `relink_keeps_existing`: every other existing node is unchanged.
+* `relink_same_file_kept` (+ `_keyed`) — an earlier link that already leads to the target's file
+  (`SameFile`, what the `sameFile` call answers `true` on; checkable form `sameFile_of_eq`): the
+  commit succeeds, the link is kept as it is, `cache/tmp` is not touched (no `ht` needed, the temp
+  counter does not move).
 * `link_fresh_address` (+ `_keyed`) — nothing: the commit succeeds, the address links to `l.target`.
 * `link_keeps_regular_content` (+ `_keyed`) — a regular file: the commit succeeds, the file stays.
-Reading back: `relinked_address_reads_target` (`open` of the address), `relinked_address_readHash`
-(the library's verified `read_hash`), `relinked_key_reads_target` (keyed: `read` of the key).
+Reading back, for an earlier link of EITHER kind (no `SameFile` / `NotSameFile` hypothesis: with
+the target a regular file the two cases are exhaustive, `same_or_not`):
+`relinked_address_reads_target` (`open` of the address), `relinked_address_readHash` (the library's
+verified `read_hash`), `relinked_key_reads_target` (keyed: `read` of the key).
+
+`NotSameFile fs p t` is stated on the filesystem BEFORE the commit although `sameFile` is called
+after `create_dir_all` of the address's directory: directories created on the way change no link
+(`resolve_linkEq`), so both paths resolve alike; the only thing that can change is that a common,
+absent destination comes into existence as one of those directories — hence the clause
+`¬ a <+: FS.parent p` (a link at the address that points at an absent ancestor directory of the
+address, with the new target naming the same path: not a situation `link_to` can be in, the target
+having just been read as a file, but the model does not know that).
 
 Hypotheses, all explicit: `hcp` — the address exists (`content_path` does not panic: ≥ 4 hex
 digits); `hd` — every ancestor of the address is absent or a directory; `ht` (relink only) — so are
@@ -130,11 +146,8 @@ theorem resolve_succ_link {fs : FS} {p : Path} {t : Target} (n : Nat)
 
 theorem resolve_succ_nonlink {fs : FS} {p : Path} (n : Nat) (h : ∀ t, fs.get p ≠ some (.link t)) :
     FS.resolve fs (n + 1) p = some p := by
+  -- the equation of the non-link case has the side condition `h`, which `simp` discharges
   simp only [FS.resolve]
-  trace_state
-  split
-  · rename_i t ht; exact absurd ht (h t)
-  · rfl
 
 /-- Two filesystems with the same symbolic links (at the same paths, with the same text) resolve
 every path alike. -/
@@ -434,7 +447,7 @@ theorem file_phase (l : Linker) (fs : FS) (cpath : Path) (b : Bytes)
       hE2, hE3, hs, hz, Option.getD_none]
     exact ⟨rfl, rfl⟩
 
-/-! ### by-address linkers: the three cases of the address -/
+/-! ### by-address linkers: the cases of the address -/
 
 theorem run_indexTail_none (l : Linker) (sri : Integrity) (hk : l.key = none) (fs : FS) :
     (run env (indexTail cfg l sri) fs).1 = .ok sri ∧ (run env (indexTail cfg l sri) fs).2.1 = fs := by
@@ -442,11 +455,12 @@ theorem run_indexTail_none (l : Linker) (sri : Integrity) (hk : l.key = none) (f
   rw [hk]
   exact ⟨rfl, rfl⟩
 
-/-- **An earlier link at the address is replaced** — whatever it points at (a changed target, a
-removed one, the same one): the commit of a by-address linker without declarations succeeds,
-the address is a link to `l.target` afterwards, the temp link `cache/tmp/#<next>` it went through
-is gone, and every other path keeps its node or turns from absent into a directory on the way to
-the address's directory or to `cache/tmp`.
+/-- **An earlier link at the address is replaced** when it does not already lead to the target's
+file (`hns`: a changed target, a removed one, a link somewhere else — `notSameFile_of_dangling`,
+`notSameFile_of_ne` give checkable forms): the commit of a by-address linker without declarations
+succeeds, the address is a link to `l.target` afterwards, the temp link `cache/tmp/#<next>` it went
+through is gone, and every other path keeps its node or turns from absent into a directory on the
+way to the address's directory or to `cache/tmp`.
 
 Hypotheses: the address of the data exists (`hcp`: the hex digest has ≥ 4 digits, otherwise
 `content_path` panics), and the ancestors of the address (`hd`) and `cache/tmp` with its ancestors
@@ -456,17 +470,37 @@ theorem relink_replaces_old_link (l : Linker) (fs : FS) (cpath : Path) (t0 : Tar
     (hcp : contentPath l.cache (Sri.compute cfg.H l.algo l.data) = some cpath)
     (hd : ∀ q, q ≠ [] → q <+: FS.parent cpath → NoneOrDir fs q)
     (ht : ∀ q, q ≠ [] → q <+: l.cache ++ [dTmp] → NoneOrDir fs q)
-    (hold : fs.get cpath = some (.link t0)) :
+    (hold : fs.get cpath = some (.link t0)) (hns : NotSameFile fs cpath l.target) :
     (run env (lcommit cfg l) fs).1 = .ok (Sri.compute cfg.H l.algo l.data) ∧
     (run env (lcommit cfg l) fs).2.1.get cpath = some (.link l.target) ∧
     (run env (lcommit cfg l) fs).2.1.get ((l.cache ++ [dTmp]) ++ [tmpName fs.next]) = none ∧
     (∀ q, q ≠ cpath → q ≠ (l.cache ++ [dTmp]) ++ [tmpName fs.next] →
       Grow2 fs (run env (lcommit cfg l) fs).2.1 q (FS.parent cpath) (l.cache ++ [dTmp])) ∧
     (run env (lcommit cfg l) fs).2.1.next = fs.next + 1 := by
-  obtain ⟨fsL, h1, h2, h3, h4, e1, e2⟩ := relink_phase cfg env l fs cpath t0 hcp hs hz hd ht hold
+  obtain ⟨fsL, h1, h2, h3, h4, e1, e2⟩ :=
+    relink_phase cfg env l fs cpath t0 hcp hs hz hd ht hold hns
   obtain ⟨r1, r2⟩ := run_indexTail_none cfg env l (Sri.compute cfg.H l.algo l.data) hk fsL
   rw [e1, e2, r1, r2]
   exact ⟨rfl, h1, h2, h3, h4⟩
+
+/-- **An earlier link that already leads to the target's file is kept** (`hsm`; checkable form:
+`sameFile_of_eq`): the commit succeeds, the address still holds the old link text, nothing is
+created in `cache/tmp` (the temp-name counter has not moved; `ht` is not needed — no write access
+to `cache/tmp`), and every path keeps its node or turns from absent into a directory on the way to
+the address's directory. -/
+theorem relink_same_file_kept (l : Linker) (fs : FS) (cpath : Path) (t0 : Target)
+    (hk : l.key = none) (hs : l.opts.sri = none) (hz : l.opts.size = none)
+    (hcp : contentPath l.cache (Sri.compute cfg.H l.algo l.data) = some cpath)
+    (hd : ∀ q, q ≠ [] → q <+: FS.parent cpath → NoneOrDir fs q)
+    (hold : fs.get cpath = some (.link t0)) (hsm : SameFile fs cpath l.target) :
+    (run env (lcommit cfg l) fs).1 = .ok (Sri.compute cfg.H l.algo l.data) ∧
+    (run env (lcommit cfg l) fs).2.1.get cpath = some (.link t0) ∧
+    (∀ q, Grow fs (run env (lcommit cfg l) fs).2.1 q (FS.parent cpath)) ∧
+    (run env (lcommit cfg l) fs).2.1.next = fs.next := by
+  obtain ⟨fsL, h1, h2, h3, e1, e2⟩ := same_phase cfg env l fs cpath t0 hcp hs hz hd hold hsm
+  obtain ⟨r1, r2⟩ := run_indexTail_none cfg env l (Sri.compute cfg.H l.algo l.data) hk fsL
+  rw [e1, e2, r1, r2]
+  exact ⟨rfl, h1, h2, h3⟩
 
 /-- Nothing is left in `cache/tmp` by the relink that was not there before: its own temp link is
 gone, every other entry of `cache/tmp` is as it was. -/
@@ -475,9 +509,10 @@ theorem relink_tmp_clean (l : Linker) (fs : FS) (cpath : Path) (t0 : Target)
     (hcp : contentPath l.cache (Sri.compute cfg.H l.algo l.data) = some cpath)
     (hd : ∀ q, q ≠ [] → q <+: FS.parent cpath → NoneOrDir fs q)
     (ht : ∀ q, q ≠ [] → q <+: l.cache ++ [dTmp] → NoneOrDir fs q)
-    (hold : fs.get cpath = some (.link t0)) :
+    (hold : fs.get cpath = some (.link t0)) (hns : NotSameFile fs cpath l.target) :
     TmpClean l.cache fs (run env (lcommit cfg l) fs).2.1 := by
-  obtain ⟨-, -, h2, h3, -⟩ := relink_replaces_old_link cfg env l fs cpath t0 hk hs hz hcp hd ht hold
+  obtain ⟨-, -, h2, h3, -⟩ :=
+    relink_replaces_old_link cfg env l fs cpath t0 hk hs hz hcp hd ht hold hns
   have hc := cpath_eq cfg hcp
   refine ⟨h2, ?_⟩
   intro n hn
@@ -498,11 +533,12 @@ theorem relink_keeps_existing (l : Linker) (fs : FS) (cpath : Path) (t0 : Target
     (hcp : contentPath l.cache (Sri.compute cfg.H l.algo l.data) = some cpath)
     (hd : ∀ q, q ≠ [] → q <+: FS.parent cpath → NoneOrDir fs q)
     (ht : ∀ q, q ≠ [] → q <+: l.cache ++ [dTmp] → NoneOrDir fs q)
-    (hold : fs.get cpath = some (.link t0))
+    (hold : fs.get cpath = some (.link t0)) (hns : NotSameFile fs cpath l.target)
     (q : Path) (n : Node) (hq : fs.get q = some n) (hq1 : q ≠ cpath)
     (hq2 : q ≠ (l.cache ++ [dTmp]) ++ [tmpName fs.next]) :
     (run env (lcommit cfg l) fs).2.1.get q = some n := by
-  obtain ⟨-, -, -, h3, -⟩ := relink_replaces_old_link cfg env l fs cpath t0 hk hs hz hcp hd ht hold
+  obtain ⟨-, -, -, h3, -⟩ :=
+    relink_replaces_old_link cfg env l fs cpath t0 hk hs hz hcp hd ht hold hns
   rcases h3 q hq1 hq2 with g | ⟨g, _⟩
   · rw [g, hq]
   · rw [hq] at g; cases g
@@ -541,7 +577,7 @@ theorem link_keeps_regular_content (l : Linker) (fs : FS) (cpath : Path) (b : By
   rw [e1, e2, r1, r2]
   exact ⟨rfl, h1, h2, h3⟩
 
-/-! ### reading through the re-pointed address -/
+/-! ### reading through the address after the commit -/
 
 /-- Reading follows the link (as `C19.read_follows_link`). -/
 theorem readFile_through_link {fs : FS} {cpath tp : Path} {b : Bytes}
@@ -551,9 +587,39 @@ theorem readFile_through_link {fs : FS} {cpath tp : Path} {b : Bytes}
   | nil => exact absurd rfl htp
   | cons x xs => simp [FS.readFile, FS.resolveFuel, FS.resolve, hl, FS.targetPath, ht]
 
-/-- **The re-pointed address reads the target**: after replacing an earlier link, opening the
-address yields the bytes of the target the linker has just read — when the target is a regular
-file outside the cache holding them. -/
+/-- Reading a path that leads to a regular file. -/
+theorem readFile_of_resolve {fs : FS} {p q : Path} {b : Bytes}
+    (hr : FS.resolve fs FS.resolveFuel p = some q) (hq : q ≠ []) (hf : fs.get q = some (.file b)) :
+    fs.readFile p = .ok b := by
+  unfold FS.readFile
+  rw [hr]
+  cases q with
+  | nil => exact absurd rfl hq
+  | cons x xs => simp only [hf]
+
+/-- With the target a regular file at `tp`: the occupant of the address either leads to `tp`
+already, or it is `NotSameFile`. -/
+theorem same_or_not {fs : FS} {cpath tp : Path} {t : Target} {b : Bytes} (htgt : t = .abs tp)
+    (hfile : fs.get tp = some (.file b)) :
+    (FS.resolve fs FS.resolveFuel cpath = some tp ∧ SameFile fs cpath t) ∨
+      NotSameFile fs cpath t := by
+  have hr : FS.resolve fs FS.resolveFuel (FS.targetPath cpath t) = some tp := by
+    rw [htgt]
+    show FS.resolve fs FS.resolveFuel tp = some tp
+    unfold FS.resolveFuel
+    exact resolve_succ_nonlink _ (by rw [hfile]; intro t e; cases e)
+  by_cases h : FS.resolve fs FS.resolveFuel cpath = some tp
+  · exact Or.inl ⟨h, tp, h, hr, by rw [hfile]; rfl⟩
+  · right
+    intro a ha hb
+    rw [hr] at hb
+    cases hb
+    exact absurd ha h
+
+/-- **The address reads the target after the commit onto an earlier link — whatever that link
+pointed at**: it is replaced by a link to the target, or it already led to the target's file and
+is kept; either way opening the address yields the bytes of the target the linker has just read —
+when the target is a regular file outside the cache holding them. -/
 theorem relinked_address_reads_target (l : Linker) (fs : FS) (cpath : Path) (t0 : Target)
     (hk : l.key = none) (hs : l.opts.sri = none) (hz : l.opts.size = none)
     (hcp : contentPath l.cache (Sri.compute cfg.H l.algo l.data) = some cpath)
@@ -563,15 +629,31 @@ theorem relinked_address_reads_target (l : Linker) (fs : FS) (cpath : Path) (t0 
     (tp : Path) (htgt : l.target = .abs tp) (htp : tp ≠ []) (hout : ¬ l.cache <+: tp)
     (hfile : fs.get tp = some (.file l.data)) :
     (run env (lcommit cfg l) fs).2.1.readFile cpath = .ok l.data := by
-  obtain ⟨-, h1, -, -, -⟩ := relink_replaces_old_link cfg env l fs cpath t0 hk hs hz hcp hd ht hold
-  have hc := cpath_eq cfg hcp
-  have hq1 : tp ≠ cpath := by
-    intro e; apply hout; rw [e, hc]; exact cache_prefix_addr _ _ _
-  have hq2 : tp ≠ (l.cache ++ [dTmp]) ++ [tmpName fs.next] := by
-    intro e; apply hout; rw [e, List.append_assoc]; exact List.prefix_append _ _
-  have h2 := relink_keeps_existing cfg env l fs cpath t0 hk hs hz hcp hd ht hold tp _ hfile hq1 hq2
-  rw [htgt] at h1
-  exact readFile_through_link h1 h2 htp
+  rcases same_or_not (cpath := cpath) htgt hfile with ⟨hr, hsm⟩ | hns
+  · obtain ⟨-, -, h2, -⟩ := relink_same_file_kept cfg env l fs cpath t0 hk hs hz hcp hd hold hsm
+    have hg : ∀ q, (run env (lcommit cfg l) fs).2.1.get q = fs.get q ∨
+        (fs.get q = none ∧ (run env (lcommit cfg l) fs).2.1.get q = some .dir) := by
+      intro q
+      rcases h2 q with g | ⟨g1, g2, _⟩
+      · exact Or.inl g
+      · exact Or.inr ⟨g1, g2⟩
+    have hr' := resolve_linkEq (linkEq_of_grow hg) FS.resolveFuel cpath
+    rw [hr] at hr'
+    refine readFile_of_resolve hr' htp ?_
+    rcases hg tp with g | ⟨g, _⟩
+    · rw [g, hfile]
+    · rw [hfile] at g; cases g
+  · obtain ⟨-, h1, -, -, -⟩ :=
+      relink_replaces_old_link cfg env l fs cpath t0 hk hs hz hcp hd ht hold hns
+    have hc := cpath_eq cfg hcp
+    have hq1 : tp ≠ cpath := by
+      intro e; apply hout; rw [e, hc]; exact cache_prefix_addr _ _ _
+    have hq2 : tp ≠ (l.cache ++ [dTmp]) ++ [tmpName fs.next] := by
+      intro e; apply hout; rw [e, List.append_assoc]; exact List.prefix_append _ _
+    have h2 := relink_keeps_existing cfg env l fs cpath t0 hk hs hz hcp hd ht hold hns tp _ hfile
+      hq1 hq2
+    rw [htgt] at h1
+    exact readFile_through_link h1 h2 htp
 
 /-- … and so does the library's verified read by address: `read_hash` of the returned integrity
 answers the target's bytes. -/
@@ -695,7 +777,8 @@ theorem run_indexTail_keyed (l : Linker) (k : Bytes) (hk : l.key = some k) (fs f
     intro k'
     rw [i2 k', hA]
 
-/-- **Keyed: an earlier link at the address is replaced, then the key is mapped.** -/
+/-- **Keyed: an earlier link at the address that does not lead to the target's file is replaced,
+then the key is mapped.** -/
 theorem relink_replaces_old_link_keyed (l : Linker) (k : Bytes) (fs : FS) (cpath : Path)
     (t0 : Target)
     (hk : l.key = some k) (hs : l.opts.sri = none) (hz : l.opts.size = none)
@@ -703,7 +786,7 @@ theorem relink_replaces_old_link_keyed (l : Linker) (k : Bytes) (fs : FS) (cpath
     (hd : ∀ q, q ≠ [] → q <+: FS.parent cpath → NoneOrDir fs q)
     (ht : ∀ q, q ≠ [] → q <+: l.cache ++ [dTmp] → NoneOrDir fs q)
     (hI : HealthyIndex cfg l.cache fs)
-    (hold : fs.get cpath = some (.link t0)) :
+    (hold : fs.get cpath = some (.link t0)) (hns : NotSameFile fs cpath l.target) :
     (run env (lcommit cfg l) fs).1 = .ok (Sri.compute cfg.H l.algo l.data) ∧
     (run env (lcommit cfg l) fs).2.1.get cpath = some (.link l.target) ∧
     (run env (lcommit cfg l) fs).2.1.get ((l.cache ++ [dTmp]) ++ [tmpName fs.next]) = none ∧
@@ -718,7 +801,8 @@ theorem relink_replaces_old_link_keyed (l : Linker) (k : Bytes) (fs : FS) (cpath
       HealthyIndex cfg l.cache (run env (lcommit cfg l) fs).2.1 ∧
       ∀ k', absIndex cfg l.cache (run env (lcommit cfg l) fs).2.1 k' =
         if k' = k then insEntry env k (linkOpts cfg l) else absIndex cfg l.cache fs k') := by
-  obtain ⟨fsL, h1, h2, h3, -, e1, e2⟩ := relink_phase cfg env l fs cpath t0 hcp hs hz hd ht hold
+  obtain ⟨fsL, h1, h2, h3, -, e1, e2⟩ :=
+    relink_phase cfg env l fs cpath t0 hcp hs hz hd ht hold hns
   have hc := cpath_eq cfg hcp
   obtain ⟨hIL, hA, hb⟩ := index_untouched cfg (tmpName fs.next) hI (by rw [← hc]; exact h3)
   obtain ⟨r1, r2, r3, r4⟩ := run_indexTail_keyed cfg env l k hk fs fsL hIL hA hb
@@ -803,9 +887,59 @@ theorem link_keeps_regular_content_keyed (l : Linker) (k : Bytes) (fs : FS) (cpa
   · intro q hq3
     exact grow_andThen (h2 q) (r3 q hq3)
 
-/-- **Keyed: the key reads the target after the relink** — `read` of the key (lookup in the index,
-then the verified read by the recorded address) answers the bytes of the target the linker has just
-read. -/
+/-- **Keyed: an earlier link that already leads to the target's file is kept, then the key is
+mapped.** -/
+theorem relink_same_file_kept_keyed (l : Linker) (k : Bytes) (fs : FS) (cpath : Path)
+    (t0 : Target)
+    (hk : l.key = some k) (hs : l.opts.sri = none) (hz : l.opts.size = none)
+    (hcp : contentPath l.cache (Sri.compute cfg.H l.algo l.data) = some cpath)
+    (hd : ∀ q, q ≠ [] → q <+: FS.parent cpath → NoneOrDir fs q)
+    (hI : HealthyIndex cfg l.cache fs)
+    (hold : fs.get cpath = some (.link t0)) (hsm : SameFile fs cpath l.target) :
+    (run env (lcommit cfg l) fs).1 = .ok (Sri.compute cfg.H l.algo l.data) ∧
+    (run env (lcommit cfg l) fs).2.1.get cpath = some (.link t0) ∧
+    (run env (lcommit cfg l) fs).2.1.get (bucketPath cfg l.cache k) =
+      some (.file (bytesAt fs (bucketPath cfg l.cache k) ++
+        (codec cfg).frame (mkRec k (linkOpts cfg l) (stamp env l.opts)))) ∧
+    (∀ q, q ≠ bucketPath cfg l.cache k →
+      Grow2 fs (run env (lcommit cfg l) fs).2.1 q (FS.parent cpath)
+        (FS.parent (bucketPath cfg l.cache k))) ∧
+    (OptsWF k l.opts → l.data.length ≤ Rec.u64Max →
+      HealthyIndex cfg l.cache (run env (lcommit cfg l) fs).2.1 ∧
+      ∀ k', absIndex cfg l.cache (run env (lcommit cfg l) fs).2.1 k' =
+        if k' = k then insEntry env k (linkOpts cfg l) else absIndex cfg l.cache fs k') := by
+  obtain ⟨fsL, h1, h2, -, e1, e2⟩ := same_phase cfg env l fs cpath t0 hcp hs hz hd hold hsm
+  have hc := cpath_eq cfg hcp
+  obtain ⟨hIL, hA, hb⟩ := index_untouched cfg (tmpName fs.next) hI
+    (by rw [← hc]; exact fun q _ _ => grow_to2 _ (h2 q))
+  obtain ⟨r1, r2, r3, r4⟩ := run_indexTail_keyed cfg env l k hk fs fsL hIL hA hb
+  rw [e1, e2]
+  have hbc : cpath ≠ bucketPath cfg l.cache k := by rw [hc]; exact (bucket_ne_addr cfg _ _ _ _).symm
+  refine ⟨r1, ?_, r2, ?_, r4⟩
+  · rcases r3 cpath hbc with g | ⟨g, _⟩
+    · rw [g]; exact h1
+    · rw [h1] at g; cases g
+  · intro q hq3
+    exact grow_andThen (h2 q) (r3 q hq3)
+
+/-- What the keyed read-back needs of the state after the commit. -/
+theorem read_of_entry (l : Linker) (k : Bytes) (cpath : Path) (fs' : FS)
+    (hcp : contentPath l.cache (Sri.compute cfg.H l.algo l.data) = some cpath)
+    (hI' : HealthyIndex cfg l.cache fs')
+    (hA' : absIndex cfg l.cache fs' k = insEntry env k (linkOpts cfg l))
+    (hr : fs'.readFile cpath = .ok l.data) :
+    (run env (read cfg l.cache k) fs').1 = .ok l.data := by
+  obtain ⟨f1, f2⟩ := run_find cfg l.cache env k _ hI'
+  unfold read
+  simp only [bind_eq, run_bind_res, f1, f2, hA', insEntry, linkOpts, Option.map_some, pure_eq]
+  unfold readHash
+  simp only [hcp, bind_eq, pure_eq, call, bind_sys, bind_done, run_sys_res, exec, hr, check_compute,
+    Option.isSome_some, if_true, run_done_res]
+
+/-- **Keyed: the key reads the target after the commit onto an earlier link — whatever that link
+pointed at** (replaced, or kept because it already led to the target's file): `read` of the key
+(lookup in the index, then the verified read by the recorded address) answers the bytes of the
+target the linker has just read. -/
 theorem relinked_key_reads_target (l : Linker) (k : Bytes) (fs : FS) (cpath : Path) (t0 : Target)
     (hk : l.key = some k) (hs : l.opts.sri = none) (hz : l.opts.size = none)
     (hcp : contentPath l.cache (Sri.compute cfg.H l.algo l.data) = some cpath)
@@ -817,29 +951,49 @@ theorem relinked_key_reads_target (l : Linker) (k : Bytes) (fs : FS) (cpath : Pa
     (tp : Path) (htgt : l.target = .abs tp) (htp : tp ≠ []) (hout : ¬ l.cache <+: tp)
     (hfile : fs.get tp = some (.file l.data)) :
     (run env (read cfg l.cache k) (run env (lcommit cfg l) fs).2.1).1 = .ok l.data := by
-  obtain ⟨-, h1, -, -, h3, h4⟩ :=
-    relink_replaces_old_link_keyed cfg env l k fs cpath t0 hk hs hz hcp hd ht hI hold
-  obtain ⟨hI', hA'⟩ := h4 hw hlen
   have hc := cpath_eq cfg hcp
-  have hq1 : tp ≠ cpath := by
-    intro e; apply hout; rw [e, hc]; exact cache_prefix_addr _ _ _
-  have hq2 : tp ≠ (l.cache ++ [dTmp]) ++ [tmpName fs.next] := by
-    intro e; apply hout; rw [e, List.append_assoc]; exact List.prefix_append _ _
   have hq3 : tp ≠ bucketPath cfg l.cache k := by
     intro e; apply hout; rw [e]; exact List.prefix_append _ _
-  have h2 : (run env (lcommit cfg l) fs).2.1.get tp = some (.file l.data) := by
-    rcases h3 tp hq1 hq2 hq3 with g | ⟨g, _⟩
-    · rw [g, hfile]
-    · rw [hfile] at g; cases g
-  rw [htgt] at h1
-  have hr := readFile_through_link h1 h2 htp
-  obtain ⟨f1, f2⟩ := run_find cfg l.cache env k _ hI'
-  unfold read
-  simp only [bind_eq, run_bind_res, f1, f2, hA' k, if_true, insEntry, linkOpts,
-    Option.map_some, pure_eq]
-  unfold readHash
-  simp only [hcp, bind_eq, pure_eq, call, bind_sys, bind_done, run_sys_res, exec, hr, check_compute,
-    Option.isSome_some, if_true, run_done_res]
+  rcases same_or_not (cpath := cpath) htgt hfile with ⟨hr, hsm⟩ | hns
+  · obtain ⟨-, -, hbk, h3, h4⟩ :=
+      relink_same_file_kept_keyed cfg env l k fs cpath t0 hk hs hz hcp hd hI hold hsm
+    obtain ⟨hI', hA'⟩ := h4 hw hlen
+    -- the commit created directories and appended to a regular file: no link changed
+    have hlinks : ∀ q t, (run env (lcommit cfg l) fs).2.1.get q = some (.link t) ↔
+        fs.get q = some (.link t) := by
+      intro q t
+      by_cases e : q = bucketPath cfg l.cache k
+      · subst e
+        rw [hbk]
+        constructor
+        · intro x; cases x
+        · intro x
+          rcases hI.buckets k with g | ⟨b, g, _⟩ <;> (rw [g] at x; cases x)
+      · rcases h3 q e with g | ⟨g1, g2, _⟩
+        · rw [g]
+        · rw [g1, g2]; constructor <;> (intro x; cases x)
+    have hr' := resolve_linkEq hlinks FS.resolveFuel cpath
+    rw [hr] at hr'
+    have h2 : (run env (lcommit cfg l) fs).2.1.get tp = some (.file l.data) := by
+      rcases h3 tp hq3 with g | ⟨g, _⟩
+      · rw [g, hfile]
+      · rw [hfile] at g; cases g
+    refine read_of_entry cfg env l k cpath _ hcp hI' ?_ (readFile_of_resolve hr' htp h2)
+    rw [hA' k, if_pos rfl]
+  · obtain ⟨-, h1, -, -, h3, h4⟩ :=
+      relink_replaces_old_link_keyed cfg env l k fs cpath t0 hk hs hz hcp hd ht hI hold hns
+    obtain ⟨hI', hA'⟩ := h4 hw hlen
+    have hq1 : tp ≠ cpath := by
+      intro e; apply hout; rw [e, hc]; exact cache_prefix_addr _ _ _
+    have hq2 : tp ≠ (l.cache ++ [dTmp]) ++ [tmpName fs.next] := by
+      intro e; apply hout; rw [e, List.append_assoc]; exact List.prefix_append _ _
+    have h2 : (run env (lcommit cfg l) fs).2.1.get tp = some (.file l.data) := by
+      rcases h3 tp hq1 hq2 hq3 with g | ⟨g, _⟩
+      · rw [g, hfile]
+      · rw [hfile] at g; cases g
+    rw [htgt] at h1
+    refine read_of_entry cfg env l k cpath _ hcp hI' ?_ (readFile_through_link h1 h2 htp)
+    rw [hA' k, if_pos rfl]
 
 /-! ### non-vacuity: the hypotheses are satisfiable -/
 
@@ -871,27 +1025,44 @@ def l1 : Linker := { l0 with key := some [107] }
 theorem len0 (l : Linker) : 4 ≤ (Bytes.hex (cfg0.H l.algo l.data)).length := by
   simp [cfg0, Bytes.hex]
 
+/-- A link at the address pointing below the address itself (`<address>/x`) — dangling on a
+filesystem that holds nothing else — does not lead to any target's file. -/
+theorem seed_notSame (cache : Path) (a : Algo) (hx : Bytes) (x : Bytes) (t : Target) :
+    NotSameFile (FS.empty.put (addrPath cache a hx) (.link (.abs (addrPath cache a hx ++ [x]))))
+      (addrPath cache a hx) t := by
+  refine notSameFile_of_dangling t (FS.get_put_same _ _ _) ?_ ?_
+  · show (FS.empty.put _ _).get (addrPath cache a hx ++ [x]) = none
+    rw [FS.get_put_ne _ _ (by intro e; simpa using congrArg List.length e)]
+    rfl
+  · show ¬ addrPath cache a hx ++ [x] <+: FS.parent (addrPath cache a hx)
+    intro h
+    have := h.length_le
+    rw [List.length_append, addrPath_length, parent_addr_length] at this
+    simp at this
+
 section
 variable (l : Linker) (hl : 4 ≤ (Bytes.hex (cfg.H l.algo l.data)).length)
 include hl
 
-/-- Statement 1 on the filesystem holding nothing but a (dangling) link at the address — for
+/-- Statement 1 on the filesystem holding nothing but a dangling link at the address — for
 every digest function with ≥ 4 hex digits and every by-address linker without declarations. -/
-example (hk : l.key = none) (hs : l.opts.sri = none) (hz : l.opts.size = none) (t0 : Target) :
+example (hk : l.key = none) (hs : l.opts.sri = none) (hz : l.opts.size = none) :
     let cpath := addrPath l.cache l.algo (Bytes.hex (cfg.H l.algo l.data))
+    let t0 : Target := .abs (cpath ++ [[120]])
     let fs := FS.empty.put cpath (.link t0)
     (run env (lcommit cfg l) fs).1 = .ok (Sri.compute cfg.H l.algo l.data) ∧
     (run env (lcommit cfg l) fs).2.1.get cpath = some (.link l.target) ∧
     TmpClean l.cache fs (run env (lcommit cfg l) fs).2.1 := by
-  intro cpath fs
+  intro cpath t0 fs
   have hd := put_keeps_chain FS.empty cpath (FS.parent cpath) (.link t0)
     (addr_not_prefix_parent _ _ _ _ _) (empty_chain _)
   have ht := put_keeps_chain FS.empty cpath (l.cache ++ [dTmp]) (.link t0)
     (addr_not_prefix_tmpDir _ _ _) (empty_chain _)
+  have hns : NotSameFile fs cpath l.target := seed_notSame _ _ _ _ _
   have h := relink_replaces_old_link cfg env l fs cpath t0 hk hs hz (contentPath_of_len cfg l hl) hd ht
-    (FS.get_put_same _ _ _)
+    (FS.get_put_same _ _ _) hns
   exact ⟨h.1, h.2.1, relink_tmp_clean cfg env l fs cpath t0 hk hs hz (contentPath_of_len cfg l hl) hd ht
-    (FS.get_put_same _ _ _)⟩
+    (FS.get_put_same _ _ _) hns⟩
 
 /-- Statement 2 on the empty filesystem. -/
 example (hk : l.key = none) (hs : l.opts.sri = none) (hz : l.opts.size = none) :
@@ -917,15 +1088,15 @@ example (hk : l.key = none) (hs : l.opts.sri = none) (hz : l.opts.size = none) (
 
 /-- Statement 1, keyed, on the filesystem holding nothing but a link at the address (its index
 area is empty, hence healthy). -/
-example (k : Bytes) (hk : l.key = some k) (hs : l.opts.sri = none) (hz : l.opts.size = none)
-    (t0 : Target) :
+example (k : Bytes) (hk : l.key = some k) (hs : l.opts.sri = none) (hz : l.opts.size = none) :
     let cpath := addrPath l.cache l.algo (Bytes.hex (cfg.H l.algo l.data))
+    let t0 : Target := .abs (cpath ++ [[120]])
     let fs := FS.empty.put cpath (.link t0)
     (run env (lcommit cfg l) fs).1 = .ok (Sri.compute cfg.H l.algo l.data) ∧
     (run env (lcommit cfg l) fs).2.1.get cpath = some (.link l.target) ∧
     (run env (lcommit cfg l) fs).2.1.get (bucketPath cfg l.cache k) =
       some (.file ((codec cfg).frame (mkRec k (linkOpts cfg l) (stamp env l.opts)))) := by
-  intro cpath fs
+  intro cpath t0 fs
   have hd := put_keeps_chain FS.empty cpath (FS.parent cpath) (.link t0)
     (addr_not_prefix_parent _ _ _ _ _) (empty_chain _)
   have ht := put_keeps_chain FS.empty cpath (l.cache ++ [dTmp]) (.link t0)
@@ -936,7 +1107,7 @@ example (k : Bytes) (hk : l.key = some k) (hs : l.opts.sri = none) (hz : l.opts.
     (index_untouched cfg (a := l.algo) (hx := Bytes.hex (cfg.H l.algo l.data)) [] hI0
       (fun q hq _ => Or.inl (FS.get_put_ne _ _ hq))).1
   have h := relink_replaces_old_link_keyed cfg env l k fs cpath t0 hk hs hz
-    (contentPath_of_len cfg l hl) hd ht hI (FS.get_put_same _ _ _)
+    (contentPath_of_len cfg l hl) hd ht hI (FS.get_put_same _ _ _) (seed_notSame _ _ _ _ _)
   refine ⟨h.1, h.2.1, ?_⟩
   have hb := h.2.2.2.1
   have : bytesAt fs (bucketPath cfg l.cache k) = [] := by
@@ -946,6 +1117,38 @@ example (k : Bytes) (hk : l.key = some k) (hs : l.opts.sri = none) (hz : l.opts.
   rw [hb, this, List.nil_append]
 
 end
+
+/-- `relink_same_file_kept` on a concrete filesystem: the address already links to the target
+file `/t` (outside the cache `/c`); the link stays and no temp name is used. -/
+example :
+    let cpath := addrPath l0.cache l0.algo (Bytes.hex (cfg0.H l0.algo l0.data))
+    let fs := (FS.empty.put cpath (.link (.abs [[116]]))).put [[116]] (.file [1, 2, 3])
+    (run env (lcommit cfg0 l0) fs).1 = .ok (Sri.compute cfg0.H l0.algo l0.data) ∧
+    (run env (lcommit cfg0 l0) fs).2.1.get cpath = some (.link (.abs [[116]])) ∧
+    (run env (lcommit cfg0 l0) fs).2.1.next = fs.next := by
+  intro cpath fs
+  have hne : ([[116]] : Path) ≠ cpath := by
+    intro e
+    have := congrArg List.length e
+    rw [addrPath_length] at this
+    simp at this
+  have hnp : ∀ d : Path, ¬ ([[116]] : Path) <+: l0.cache ++ d := by
+    intro d h
+    have := List.cons_prefix_cons.mp (show ([116] : Bytes) :: [] <+: [99] :: d from h)
+    simp at this
+  have hd := put_keeps_chain _ [[116]] (FS.parent cpath) (.file [1, 2, 3])
+    (by rw [parent_addr_eq]; exact hnp _)
+    (put_keeps_chain FS.empty cpath (FS.parent cpath) (.link (.abs [[116]]))
+      (addr_not_prefix_parent _ _ _ _ _) (empty_chain _))
+  have hold : fs.get cpath = some (.link (.abs [[116]])) := by
+    rw [FS.get_put_ne _ _ hne.symm, FS.get_put_same]
+  have hfile : fs.get [[116]] = some (.file [1, 2, 3]) := FS.get_put_same _ _ _
+  have hsm : SameFile fs cpath l0.target :=
+    sameFile_of_eq hold rfl (by show (fs.get [[116]]).isSome = true; rw [hfile]; rfl)
+      (by intro t; show fs.get [[116]] ≠ _; rw [hfile]; intro e; cases e)
+  have h := relink_same_file_kept cfg0 env l0 fs cpath _ rfl rfl rfl
+    (contentPath_of_len cfg0 l0 (len0 l0)) hd hold hsm
+  exact ⟨h.1, h.2.1, h.2.2.2⟩
 
 /-- Statement 4 on a concrete filesystem: a dangling link at the address and the target file
 `/t` outside the cache `/c`. -/
@@ -1040,6 +1243,7 @@ example :
     (by simp [l1, l0, Rec.u64Max]) [[116]] rfl (by simp) hout (FS.get_put_same _ _ _)
 
 #print axioms relink_replaces_old_link
+#print axioms relink_same_file_kept
 #print axioms relink_tmp_clean
 #print axioms relink_keeps_existing
 #print axioms link_fresh_address
@@ -1049,6 +1253,10 @@ example :
 #print axioms relink_replaces_old_link_keyed
 #print axioms link_fresh_address_keyed
 #print axioms link_keeps_regular_content_keyed
+#print axioms relink_same_file_kept_keyed
 #print axioms relinked_key_reads_target
+#print axioms notSameFile_of_dangling
+#print axioms notSameFile_of_ne
+#print axioms sameFile_of_eq
 
 end Cacache.LinkRefine
